@@ -831,12 +831,14 @@ fn lived_in_exhaustive(p: &mut ProbeReport, which: &str, maxlen: usize) {
         if idx.len() > maxlen { break; }
         if !idx.iter().any(|a| *a <= 1) { continue; }
         total += 1;
-        let mut recs: Vec<(usize, String, usize)> = vec![(1, titles[0].into(), 500), (2, titles[1].into(), 400), (3, titles[2].into(), 300)];
+        // ratings on both sides of 2^31 and 2^32 (a score narrowed to 32 bits would tie or reorder them)
+        let big = if cfg!(target_pointer_width = "64") { 1usize << 31 } else { 1usize << 20 };
+        let mut recs: Vec<(usize, String, usize)> = vec![(1, titles[0].into(), 4 * big + 5), (2, titles[1].into(), big + 400), (3, titles[2].into(), 300)];
         let mut limit = 5usize;
         let mut st = Scn { lang: "none".into(), recs: recs.clone(), limit }.build();
         let mut ops: Vec<Op> = vec![Op::New, Op::Limit(limit)];
         for (id, t, rt) in &recs { ops.push(Op::Add(*id, *rt, t.clone())); }
-        let (mut lo, mut hi) = (200usize, 600usize);
+        let (mut lo, mut hi) = (200usize, 8 * big);
         for a in &idx {
             match a {
                 0 | 1 => { let rt = if *a == 0 { lo -= 10; lo } else { hi += 10; hi }; let id = recs.len() + 1; let t = titles[id % titles.len()].to_string(); add_to(&mut st, id, &t, rt); recs.push((id, t.clone(), rt)); ops.push(Op::Add(id, rt, t)); }
@@ -1021,7 +1023,8 @@ fn p08(p: &mut ProbeReport, r: &mut Rng, budget: usize) {
             }
         }
         // identical titles: higher rating first
-        let (r1, r2) = (r.below(1 << 31), r.below(1 << 31));
+        // mostly random, sometimes the two largest / two smallest ratings of the property's range
+        let (r1, r2) = match i % 7 { 0 => ((1usize << 31) - 1, (1usize << 31) - 2), 1 => (0, 1), 2 => ((1usize << 31) - 1, r.below(1 << 31)), _ => (r.below(1 << 31), r.below(1 << 31)) };
         if r1 != r2 {
             let scn = Scn { lang: code.into(), recs: vec![(1, u.clone(), r1), (2, u.clone(), r2)], limit: 10 };
             let h = ids(&search_results(&scn.build(), &u));
@@ -1655,6 +1658,29 @@ fn check_prepare(p: &mut ProbeReport, st: &Store, lang: &core::Lang, code: &str,
 }
 
 fn p18(p: &mut ProbeReport, r: &mut Rng, budget: usize) {
+    // grams that differ in one low bit next to a character beyond U+FFFF (a key packed into too few bits would merge
+    // them): the record that holds both spellings shares three grams with the query, thirty fillers share two, and the
+    // cap leaves room for ten
+    for (astral, x, y) in [('\u{10330}', 'b', 'c'), ('\u{10330}', 'd', 'e'), ('\u{20BB7}', 'a', 'c'), ('\u{1F600}', 'b', 'c')] {
+        for swap in [false, true] {
+            let (x, y) = if swap { (y, x) } else { (x, y) };
+            // the record holding both spellings is placed first in one store and last in another (ties at the cap
+            // are cut in position order)
+            for colliding_last in [false, true] {
+            let mut recs: Vec<(usize, String, usize)> = vec![];
+            if !colliding_last { recs.push((1, format!("k{}{} k{}{}", x, astral, y, astral), 5)); }
+            for i in 0..30 { recs.push((3 + i, format!("k{}{}", y, ['m', 'n', 'o', 'p', 'q', 'r'][i % 6]), 7 + i)); }
+            recs.push((2, format!("k{}{}", y, astral), 6));
+            if colliding_last { recs.push((1, format!("k{}{} k{}{}", x, astral, y, astral), 5)); }
+            let st = Scn { lang: "none".into(), recs: recs.clone(), limit: 10 }.build();
+            let mut hist: Vec<Op> = vec![Op::New];
+            for (id, t, rt) in &recs { hist.push(Op::Add(*id, *rt, t.clone())); }
+            let lang = make_lang("none");
+            if !check_prepare(p, &st, &lang, "none", &recs, &format!("k{}{}", y, astral), 1, &hist) { return; }
+            if !check_prepare(p, &st, &lang, "none", &recs, &format!("k{}{} k{}{}", x, astral, y, astral), 1, &hist) { return; }
+            }
+        }
+    }
     // incremental: the same few queries are prepared again after every add (also adds whose words start with letters
     // no earlier word starts with, also into an empty store) and after clear
     for round in 0..(if budget > 5000 { 400 } else { 60 }) {
@@ -1688,12 +1714,12 @@ fn p18(p: &mut ProbeReport, r: &mut Rng, budget: usize) {
         let lang = make_lang(code);
         let dense = i % 2 == 0;
         let n = if dense { r.range(5, 60) } else { r.range(0, 12) };
-        let recs: Vec<(usize, String, usize)> = (0..n).map(|k| (k + 1, if dense { let nw = r.range(0, 3); (0..nw).map(|_| { let l = r.range(1, 4); (0..l).map(|_| *r.pick(&['a', 'b', 'c'])).collect::<String>() }).collect::<Vec<_>>().join(" ") } else { v.title(r) }, 1)).collect();
+        let recs: Vec<(usize, String, usize)> = (0..n).map(|k| (k + 1, if dense { let nw = r.range(0, 3); (0..nw).map(|_| { let l = r.range(1, 4); (0..l).map(|_| *r.pick(&['a', 'b', 'c', '\u{10330}'])).collect::<String>() }).collect::<Vec<_>>().join(" ") } else { v.title(r) }, 1)).collect();
         let scn = Scn { lang: code.into(), recs, limit: 10 };
         let st = scn.build();
         let rgrams: Vec<BTreeSet<[char; 3]>> = scn.recs.iter().map(|e| grams_of(&tokenize_record(&e.1, &lang))).collect();
         for _ in 0..4 {
-            let q = if dense { let l = r.range(0, 3); (0..l).map(|_| *r.pick(&['a', 'b', 'c', ' '])).collect::<String>() } else if scn.recs.is_empty() { v.title(r) } else { let t = r.pick(&scn.recs).1.clone(); query_for(&v, r, &t) };
+            let q = if dense { let l = r.range(0, 3); (0..l).map(|_| *r.pick(&['a', 'b', 'c', ' ', '\u{10330}'])).collect::<String>() } else if scn.recs.is_empty() { v.title(r) } else { let t = r.pick(&scn.recs).1.clone(); query_for(&v, r, &t) };
             let size = *r.pick(&[0usize, 1, 2, 3, 10]);
             let tq = tokenize_query(&q, &lang);
             let got = st.index.borrow_mut().prepare(&tq.to_ref(), size);
